@@ -118,11 +118,11 @@ func c01sameFields(a, b []HeaderField) bool {
 }
 
 type c01state struct {
-	buf  bytes.Buffer
-	e    *Encoder
-	d    *Decoder
-	got  []HeaderField
-	want []HeaderField
+	buf     bytes.Buffer
+	e       *Encoder
+	d       *Decoder
+	got     []HeaderField
+	want    []HeaderField
 	open    bool
 	nfields int
 	// ghost: lowest maximum the encoder's table had since the last size update it emitted, and whether some
@@ -242,10 +242,15 @@ func (s *c01state) step(op int, kinds []int) {
 }
 
 func VerifC01_history() {
-	// quick: 4 steps, <= 3 fields of kinds 0, 2, 3; thorough: 5 steps, <= 3 fields of kinds 0..4
+	// quick:    4 steps, <= 3 fields of kinds 0, 2, 3
+	// thorough: 5 steps, <= 3 fields of kinds 0, 2, 3   or   4 steps, <= 3 fields of kinds 0..4
 	steps, maxFields, kinds := 4, 3, []int{0, 2, 3}
 	if vfTier() > 0 {
-		steps, kinds = 5, []int{0, 1, 2, 3, 4}
+		if vfChoice("plan", 2) == 0 {
+			steps = 5
+		} else {
+			kinds = []int{0, 1, 2, 3, 4}
+		}
 	}
 	s := c01new()
 	for step := 0; step < steps; step++ {
@@ -284,7 +289,9 @@ func VerifC01_history() {
 
 // VerifC01_resize: a fixed longer history around the table-size machinery, all sizes symbolic, fields of kind 0
 // (symbolic 1-byte name and value, symbolic Sensitive):
-//   field, end, limit(v1), limit(v2), max(v3), max(v4), field, end
+//
+//	field, end, limit(v1), limit(v2), max(v3), max(v4), field, end
+//
 // (reaches: shrink and re-grow between two blocks through both setters, two size updates in one block, the
 // decoder evicting on a size update, a reference to an entry that survived a resize).
 func VerifC01_resize() {
